@@ -16,8 +16,11 @@
 package sniproxy
 
 import (
+	"bytes"
+	"errors"
 	"fmt"
 	"io"
+	"math"
 )
 
 type decoder struct {
@@ -80,21 +83,46 @@ func (d *decoder) u64() uint64 {
 	return v
 }
 
+// decodeAllocMax is the largest buffer that bytes() allocates up front on the
+// word of a length prefix alone. Longer fields are read incrementally, so that
+// the memory used stays proportional to the bytes that actually arrive.
+const decodeAllocMax = 64 * 1024
+
+var errLengthOverflow = errors.New("length prefix overflows")
+
 func (d *decoder) bytes(buf []byte) []byte {
-	n := int(d.u64())
-	if n <= 0 {
+	n64 := d.u64()
+	if n64 == 0 {
 		return nil
 	}
 	if d.hasErr() {
 		return nil // To avoid the allocation.
 	}
-	if len(buf) >= n {
-		buf = buf[:n]
-	} else {
-		buf = make([]byte, n)
+	if n64 > math.MaxInt64 {
+		d.err = errLengthOverflow
+		return nil
 	}
-	d.read(buf)
-	return buf
+	n := int64(n64)
+	if int64(len(buf)) >= n {
+		buf = buf[:n]
+		d.read(buf)
+		return buf
+	}
+	if n <= decodeAllocMax {
+		buf = make([]byte, n)
+		d.read(buf)
+		return buf
+	}
+
+	var bb bytes.Buffer
+	m, err := io.CopyN(&bb, d.r, n)
+	d.n += m
+	if err == io.EOF {
+		d.err = io.ErrUnexpectedEOF
+	} else if err != nil {
+		d.err = err
+	}
+	return bb.Bytes()
 }
 
 func (d *decoder) str() string {
